@@ -142,7 +142,7 @@ Section Stage3c.
     destruct f as [|f']; [lia|].
     intros s tl Hav.
     cbn [dec_call]. unfold dec_body. cbn [andb]. cbn [pbind resume].
-    set (s0 := setmark s (pos s)).
+    set (s0 := s).
     assert (Hav0: avail s0 = content ++ tl) by exact Hav.
     assert (Hwne: wire_tags a x <> []) by (rewrite Hw; discriminate).
     (* the tag map of the alternatives resolves the tags read *)
